@@ -12,7 +12,7 @@ import itertools
 import json
 import random
 
-from ..core import emit_behaviours, model_check, pool_map, sany, validate_traces
+from ..core import MachineryError, emit_behaviours, model_check, pool_map, sany, validate_traces
 
 META = {
     'text': 'TLC model-checks the ordering automaton of the node life cycle over every attachment graph on 2 modules (thorough: '
@@ -74,7 +74,7 @@ def _healthy(b):
     return not any(cyc(m, {m}) for m in mods)
 
 
-NAMESETS = [{'a': 'p', 'b': 'mf', 'c': 'x1'}, {'a': 'x1', 'b': 'p', 'c': 'mf'}, {'a': 'zz', 'b': 'k9', 'c': 'heater'},
+NAMESETS = [{'a': 'p', 'b': 'mf', 'c': 'x1'}, {'a': 'x1', 'b': 'p', 'c': 'mf'}, {'a': 'q7', 'b': 'k9', 'c': 'heater'},
             {'a': 'm3', 'b': 'm1', 'c': 'm2'}]
 
 
@@ -82,6 +82,10 @@ def _renamed(cfg, ren):
     """the same configuration under other module names (the order in which sets / dicts of names are walked
     depends on the names): run it, then translate the log back"""
     f = lambda n: ren.get(n, n)
+    # a name that is not a module (a dangling attachment target) must stay dangling under the new names
+    loose = {t for v in cfg['att'].values() for t in v if t not in cfg['order']}
+    if loose & set(ren.values()):
+        raise MachineryError(f'rename {ren} collides with the dangling target(s) {sorted(loose)}')
     c = dict(cfg)
     c['order'] = [f(n) for n in cfg['order']]
     c['att'] = {f(k): [f(t) for t in v] for k, v in cfg['att'].items()}
